@@ -65,6 +65,10 @@ class Holder(HasTraits):
     df = Dict(Float, Float)
     si = Set(Int)
     sf = Set(Float)
+    # declared with a lower bound but WITHOUT a default of its own (the implicit [] is too short): whatever reading it
+    # does, it never hands out a list that violates the bound
+    lnd = List(Int, minlen=2)
+    lnd1 = List(Int, minlen=1, maxlen=3)
 
 
 def dec(x):
@@ -234,6 +238,7 @@ def set_ops(inner):
         st.tuples(st.just("discard"), it), st.tuples(st.just("remove"), it), st.tuples(st.just("iand"), its),
         st.tuples(st.just("isub"), its), st.tuples(st.just("difference_update"), its), st.tuples(st.just("pop")),
         st.tuples(st.just("intersection_update"), its), st.tuples(st.just("iand"), its),
+        st.tuples(st.just("ior_fs"), its), st.tuples(st.just("ixor_fs"), its),          # frozenset operands
         st.tuples(st.just("clear")), st.tuples(st.just("assign"), its),
         st.tuples(st.just("assign_other"), st.sampled_from([None, 5, [1]])),
         st.tuples(st.just("assign_copy"), its), st.tuples(st.just("assign_twin"), its),
@@ -401,11 +406,11 @@ def m_set(m, op, c):
         return out
     if k == "add":
         y = c(op[1]); hash(y); m.add(y)
-    elif k == "ior":
+    elif k in ("ior", "ior_fs"):
         m.update(cs(set(op[1])))          # (the operand really is set(items): equal items have collapsed already)
     elif k == "update":
         m.update(cs(op[1]))
-    elif k in ("ixor", "sdu"):
+    elif k in ("ixor", "sdu", "ixor_fs"):
         values = set(op[1])
         removed = m & values
         added = {c(x) for x in values - removed} - m
@@ -443,6 +448,10 @@ def r_set(s, op):
         s |= set(op[1])
     elif k == "ixor":
         s ^= set(op[1])
+    elif k == "ior_fs":
+        s |= frozenset(op[1])
+    elif k == "ixor_fs":
+        s ^= frozenset(op[1])
     elif k == "sdu":
         s.symmetric_difference_update(op[1])
     elif k == "discard":
@@ -491,6 +500,14 @@ def run(case, ctx):
     for n in ("ll", "lbb", "dl"):
         o.observe(lambda e: ev.append("observe-inner"), n + ".items.items")
     interesting = False
+    for dn, lo in (("lnd", 2), ("lnd1", 1)):
+        try:
+            dv = getattr(o, dn)
+        except TraitError:
+            ctx.label("default-below-minlen-refused")
+        else:
+            if len(dv) < lo:
+                ctx.fail("invariant/default-below-minlen", "%s = List(Int, minlen=%d) without a default reads %r" % (dn, lo, list(dv)))
 
     for path, rawop in case["ops"]:
         name = path[0]
@@ -578,7 +595,7 @@ def run(case, ctx):
                         raise Skip()
                 expected = m_dict(copy.deepcopy(model), op, lambda x: conv(tspec[1], x), lambda x: conv(tspec[2], x))
             elif kind == "set":
-                if k in ("ior", "ixor", "iand", "isub"):
+                if k in ("ior", "ixor", "iand", "isub", "ior_fs", "ixor_fs"):
                     try:
                         set(op[1])
                     except TypeError:
